@@ -23,7 +23,8 @@ EXPLANATION = (
     "exception; (e) method names passed as strings to adapters with a statically known target exist.  "
     "(g) on no enumerated path of any function is a local read before it is bound (UnboundLocalError is a NameError; four functions "
     "with triaged infeasible paths are excepted by name with reasons); names exported in __all__ that are imported under "
-    "try/except ImportError are also bound by the fallback.  Does not decide behaviour beyond name availability.")
+    "try/except ImportError are also bound by the fallback, and a name bound at module level only under such a `try` (handler neither "
+    "binds nor re-raises) is not used inside functions.  Does not decide behaviour beyond name availability.")
 RULES = {
     "C20-a": "every name listed in a module's __all__ is bound in that module after simulated initialisation",
     "C20-b": "every global name loaded in any scope is bound at module level or is a builtin (py2 branches folded)",
@@ -255,6 +256,57 @@ def check_globals(ctx):
                         "ast=%s symtable=%s" % (name, sorted(mine), sorted(sym)))
         ctx.ok("C20-b", (name, "<module>"), "all global loads of %s resolve (%d py2-only names folded away)"
                % (name, len([x for x in mine]) - len([k for k in reported])))
+    # names bound at module level only inside `try:` whose ImportError-like handler neither binds them nor re-raises:
+    # bound when the optional dependency is there, a NameError at the first use when it is not
+    n_cond = 0
+    for name in sorted(ctx.tree.modules):
+        mod = ctx.tree.modules[name]
+
+        def binds(stmts):
+            out = set()
+            for x in stmts:
+                for n in ast.walk(x):
+                    if isinstance(n, (ast.Import, ast.ImportFrom)):
+                        out.update((al.asname or al.name).split(".")[0] for al in n.names)
+                    elif isinstance(n, ast.Name) and isinstance(n.ctx, ast.Store):
+                        out.add(n.id)
+                    elif isinstance(n, (ast.FunctionDef, ast.ClassDef)):
+                        out.add(n.name)
+            return out
+        conditional = {}
+        for st in mod.tree.body:
+            if not isinstance(st, ast.Try):
+                continue
+            tried = binds(st.body)
+            for h in st.handlers:
+                types = [] if h.type is None else (h.type.elts if isinstance(h.type, ast.Tuple) else [h.type])
+                if h.type is not None and not any(res.canon(t) in ("builtins.ImportError", "builtins.ModuleNotFoundError", "builtins.Exception")
+                                                  for t in types):
+                    continue
+                if any(isinstance(x, ast.Raise) for b in h.body for x in ast.walk(b)):
+                    continue
+                for nm in tried - binds(h.body):
+                    conditional[nm] = h
+        elsewhere = set()
+        for st in mod.tree.body:
+            if not isinstance(st, ast.Try):
+                elsewhere |= binds([st]) if not isinstance(st, (ast.FunctionDef, ast.ClassDef)) else {st.name}
+        for nm in sorted(conditional):
+            if nm in elsewhere or nm in BUILTINS:
+                continue
+            n_cond += 1
+            uses = [n for n in ast.walk(mod.tree) if isinstance(n, ast.Name) and n.id == nm and isinstance(n.ctx, ast.Load)
+                    and A.enclosing(n, A.FUNC) is not None and res.local_binding(nm, n) is None]
+            for u in uses[:1]:
+                fn = A.enclosing(u, (ast.FunctionDef, ast.AsyncFunctionDef))
+                ctx.violation("C20-b", u, "name %r is bound in module %s only inside `try:`; the `except %s` branch neither binds it nor "
+                              "re-raises, so without the optional dependency the module imports and %s fails with NameError at this "
+                              "line (instead of ImportError when the element is built)" % (
+                                  nm, name, A.src(conditional[nm].type) if conditional[nm].type is not None else "", A.qualname(fn) if fn else "?"),
+                              construct="conditional-name:%s" % nm)
+            if not uses:
+                ctx.ok("C20-b", (name, "<module>"), "conditionally bound %s is not used inside functions of %s" % (nm, name))
+    ctx.note("conditionally_bound_names", n_cond)
     ctx.instances_floor("C20-b", n_scopes, 500, "scopes")
     ctx.note("scopes", n_scopes)
     ctx.note("name_loads", n_loads)
